@@ -249,7 +249,7 @@ class _SimFuture:
         return self.backend.retrieve_result(self)
 
 
-_BACKEND_STATE = {"backend": None, "script": None, "stats": None}
+_BACKEND_STATE = {"backend": None, "script": None, "stats": None, "prefix": None}
 
 
 class HostSimBackend(ParallelBackendBase):
@@ -317,9 +317,34 @@ class HostSimBackend(ParallelBackendBase):
         if f.callback is not None:
             f.callback(f)
 
+    def _run_threads(self):
+        """Shared-memory threads with a seeded, replayable interleaving: every pending
+        task runs in a real thread, exactly one thread holds the baton, and the baton may
+        change hands at every line event inside skmatter code (sys.settrace)."""
+        stats = _BACKEND_STATE["stats"]
+        group, self.pending = self.pending, []
+        inter = Interleaver(self._rng, _BACKEND_STATE.get("prefix") or "", float(self.script.get("switch", 0.3)))
+        res = inter.run([f.func for f in group])
+        stats["fired"]["joblib:threads"] += 1
+        stats["joblib_tasks"] += len(group)
+        if inter.switches:
+            stats["probes"]["tasks_interleaved_at_line_level"] += 1
+        stats["thread_switches"] = stats.get("thread_switches", 0) + inter.switches
+        for f, (ok, val) in zip(group, res):
+            if ok:
+                f.result = val
+            else:
+                f.error = val
+            f.done = True
+        for f in group:
+            if f.callback is not None:
+                f.callback(f)
+
     def retrieve_result(self, out, timeout=None):
         stats = _BACKEND_STATE["stats"]
         mode = self.script.get("mode", "inline")
+        while mode == "threads" and not out.done:
+            self._run_threads()
         while not out.done:
             if mode in ("reorder", "isolate", "twice", "batch") and len(self.pending) > 1:
                 if mode == "reorder" or self.script.get("reorder"):
@@ -348,6 +373,86 @@ class HostSimBackend(ParallelBackendBase):
 
     def terminate(self):
         self.pending = []
+
+
+class Interleaver:
+    """Baton-passing execution of callables in real threads; the choice of who runs next
+    is drawn from the seeded generator at deterministic points, so a seed is one exactly
+    repeatable interleaving."""
+
+    def __init__(self, rng, prefix, switch_prob):
+        self.rng = rng
+        self.prefix = prefix
+        self.p = switch_prob
+        self.switches = 0
+
+    def run(self, funcs):
+        import threading
+
+        n = len(funcs)
+        results = [None] * n
+        go = [threading.Event() for _ in range(n)]
+        done = [False] * n
+        main = threading.Event()
+        state = {"cur": None}
+        prefix = self.prefix
+
+        def runnable():
+            return [i for i in range(n) if not done[i]]
+
+        def hand_over(me):
+            r = [i for i in runnable() if i != me]
+            if not r:
+                return
+            nxt = r[self.rng.randrange(len(r))]
+            self.switches += 1
+            state["cur"] = nxt
+            go[me].clear()
+            go[nxt].set()
+            go[me].wait()
+
+        def make_tracer(i):
+            def local(frame, event, arg):
+                if event == "line" and self.rng.random() < self.p:
+                    hand_over(i)
+                return local
+
+            def glob(frame, event, arg):
+                if frame.f_code.co_filename.startswith(prefix):
+                    return local
+                return None
+
+            return glob
+
+        def body(i):
+            go[i].wait()
+            sys.settrace(make_tracer(i))
+            try:
+                results[i] = (True, funcs[i]())
+            except BaseException as e:  # noqa: BLE001
+                results[i] = (False, e)
+            finally:
+                sys.settrace(None)
+                done[i] = True
+                r = runnable()
+                if r:
+                    nxt = r[self.rng.randrange(len(r))]
+                    state["cur"] = nxt
+                    go[nxt].set()
+                else:
+                    main.set()
+
+        ths = [threading.Thread(target=body, args=(i,), daemon=True) for i in range(n)]
+        for t in ths:
+            t.start()
+        if n:
+            first = self.rng.randrange(n)
+            state["cur"] = first
+            go[first].set()
+            main.wait()
+        for t in ths:
+            t.join()
+        return results
 
 
 register_parallel_backend("hostsim", HostSimBackend)
@@ -542,6 +647,7 @@ class Env:
         self.src_prefix = skmatter.__file__.rsplit("/", 1)[0] + "/"
         self.interrupter = Interrupter(self.stats, self.src_prefix)
         _BACKEND_STATE["stats"] = self.stats
+        _BACKEND_STATE["prefix"] = self.src_prefix
 
     # -- seam installation by identity scan of skmatter module globals
     def install(self):
